@@ -18,6 +18,9 @@ CLAIMS = {
  'C06': dict(tech="TLC model checking of MC_Grids.tla (emitted rows <=> declared partition within bounds) + TLC-enumerated grid scenarios replayed into rockit",
              text="MC_Grids checks on the specification that the rows of every grid class/formulation hold exactly for the declared partition within min/max, for all N<=3/4 and a rational neighbourhood of grid-variable assignments (and that the old deviations break this); the scenario family replays grid class x localize_t0/localize_T/FreeGrid x bound x perturbed grid variable x horizon kind x method and compares time vectors, t/DT/DT_control samples and the feasibility verdict of the NLP's grid rows with the declarative verdict",
              ref="DESIGN.md section 4 C06"),
+ 'C03': dict(tech="TLC model checking of MC_Order.tla (orders of the specified schemes as exact algebra) + TLC-computed exact flows replayed against discrete_system / sys_simulator",
+             text="PARTIAL. MC_Order checks on the specification that rk reproduces the degree-4 Taylor polynomial on x'=lambda x and has quadrature error ratio 16, expl_euler degree 1 / ratio 2, and that the collocation steps obtained by solving the specification's own collocation rows (radau d=1,2; legendre d=1) match exp(z) through order 2d-1 / 2d with weights exact to the matching degree; C01/C02 bind those schemes to the code. On exactly solvable families (polynomial in t, lower-triangular in the states) TLC computes the exact flow and integral; ocp.discrete_system must equal the scheme values exactly, approach the exact flow at rate 2^p on the finest M pair, the CasADi integrators (cvodes, collocation) and ocp.sys_simulator must be within 1e-4 of the exact flow",
+             ref="DESIGN.md section 4 C03 and section 5"),
  'C04': dict(tech="TLA+ spec (Nlp placement: DeclaredPoints vs EmittedPoints checked by TLC) + TLC-enumerated scenarios replayed into rockit",
              text="TLC checks that the loop-shaped placement equals the declared placement for every catalogue constraint and predicts the bag of slacks of every declared instance; the real NLP rows are grouped by declaring call (metadata carried through Opti) and compared as bags, and every untagged row must be a dynamics row or a pure horizon/grid row",
              ref="DESIGN.md section 4 C04"),
@@ -51,15 +54,27 @@ CLAIMS = {
  'C10': dict(tech="TLC model checking of Lifecycle.tla + TLC-generated API histories replayed into rockit",
              text="(a) exact replay family: guess forms (constant, time expression, N / N+1 column arrays as DM and numpy, repeated calls, T/t0 guesses, algebraic guesses) x symbol kinds x {MS, SS, DC incl. helper states} x before/after transcription: physical start of every decision variable against StartOf(decl); (b) for every generated history the physical starting point of the live NLP equals that of a fresh OCP with the final guesses (guess before/after transcription, last call wins)",
              ref="DESIGN.md section 4 C10"),
+ 'C12': dict(tech="TLA+ spec Stages.tla (disjoint union + parent rows), invariant Compositional checked by TLC; multi-stage scenarios (direct and cloned stages) replayed into rockit",
+             text="TLC checks on every scenario that each stage's prediction inside the multi-stage problem equals its stand-alone prediction and the objective is the sum; the real multi-stage NLP (1..3 stages of different models/methods/grids/N, free/fixed horizons, integrals with time, coupling patterns chain/time, stages declared directly or cloned from a template with overridden t0/T) is compared per stage (rows recognised by the ingredients they touch), parent rows, no row coupling stages except declared parent constraints, objective sum, T>=0 per stage, template and declared lists untouched by transcription, and a set_value/edit history on a stage-level parameter",
+             ref="DESIGN.md section 4 C12"),
  'C13': dict(tech="TLC model checking of Lifecycle.tla (cache-protocol invariants and action properties) + TLC-generated histories replayed into rockit with per-step state comparison",
              text="Lifecycle.tla models decl/live/tflag over 14 operations; TLC checks CacheCurrent, NeverRaises, QueriesIdempotent, DeclUntouched, SetValueLocal on all reachable states; every generated history is executed on the real object: outcome, is_transcribed, declared lists after each call, and at every transcribing call the live NLP (rows by call site, objective, parameters, start, grid, solver in effect) against a freshly written OCP",
              ref="DESIGN.md section 4 C13"),
+ 'C17': dict(tech="TLA+ spec BSplines.tla (Cox-de Boor in exact rationals) with spline laws checked by TLC; predictions replayed against the helper functions and grid='bspline' signals",
+             text="PARTIAL (SplineMethod itself is not covered). TLC checks partition of unity, non-negativity, linear precision at the Greville points and unit derivative coefficients of the identity spline for orders 0..4, N<=5/8, uniform/geometric/irregular breakpoints, 0..2/4 sub-samples; eval_on_knots (edges, sub-samples, sub-grid), spline values, bspline_derivative and get_greville_points are compared exactly; variable(grid='bspline') under MultipleShooting/DirectCollocation: samples on the control grid and at every refinement equal the Cox-de Boor evaluation of the coefficients, der() is the analytic derivative in physical time, and a grid='bspline' parameter in the ODE reaches the right interval (explicit-Euler gap rows)",
+             ref="DESIGN.md section 4 C17"),
+ 'C19': dict(tech="TLC model checking of ToFunction.tla (call data = imperative data, isolation from later updates) + scenarios replayed: ocp.to_function vs a freshly written OCP driven imperatively",
+             text="TLC enumerates argument lists (parameters p, q; guesses of sampled states/controls), values current when the function is made, later imperative updates and call values, and supplies the data the call must work on; the real function's results are compared (1e-6) with set_value/set_initial/solve/sample on a fresh OCP with exactly that data, for MS/SS/DC and iteration limits 1 and 50 (the limit 1 makes the result depend on the guesses)",
+             ref="DESIGN.md section 4 C19"),
  'C18': dict(tech="Save/Load as Lifecycle actions; TLC-generated histories replayed into rockit",
              text="at every save point of every generated history the object is saved and loaded; the loaded OCP (symbols found through the public accessors) must transcribe to the NLP of a fresh OCP with the specification's declaration, and the original must continue along the history",
              ref="DESIGN.md section 4 C18"),
 }
 NOTES = {
  'C02': "degrees with irrational nodes (radau d>=3, legendre d>=2) are not predicted numerically yet",
+ 'C03': "asymptotic rates for general smooth ODEs, schemes with irrational nodes and 'within the requested tolerance' as such are not decided; CVODES quadratures are only required to be within 5e-2 (no error control by default)",
+ 'C17': "SplineMethod (chain dynamics, gist at Greville points, equality of optima with shooting) is not covered: clause C17.c/d of DESIGN.md remain open",
+ 'C19': "scaled states/controls inside to_function are not exercised",
  'C08': "collocation degrees with irrational nodes and the convergence clause are not covered; DC probes are generic (not feasible), so the final sample of the last step is excluded there",
  'C15': "DirectCollocation degree 4 (irrational nodes) is not predicted numerically; tightness as M grows is not decided",
  'C16': "second derivatives only of pure time expressions (der of an expression that mentions controls is documented to raise)",
